@@ -291,6 +291,43 @@ def run(db, cx):
                           "policy")
     cx.floor("CoreTrackView view factories", n, 6)
 
+    # 6b. track ids are drawn from a per-event atomic counter: the executors that draw them must
+    # visit the slots in thread order, i.e. not be launched through the slot-remapping
+    # TrackExecutor (whose visit order is the track_slots permutation of the sort policy)
+    mk = C + "detail::make_track_id"
+    cx.require(db.get(mk), "anchor make_track_id not found")
+    rcg = db.reverse_callgraph()
+    targets = set(db.node_of(g.r) for g in db.get(mk))
+    seen = set()
+    parent = {}
+    work = list(targets)
+    while work:
+        nd = work.pop()
+        if nd in seen:
+            continue
+        seen.add(nd)
+        for up in rcg.get(nd, ()):
+            if up not in seen:
+                parent.setdefault(up, nd)
+                work.append(up)
+    remap = sorted(nd for nd in seen if nd.startswith(C + "TrackExecutor<") or
+                   nd.startswith(C + "ConditionalTrackExecutor<") or ".track_slots" in nd)
+    chain = []
+    if remap:
+        cur = remap[0]
+        while cur is not None and len(chain) < 12:
+            chain.append(cur.split("(")[0][-80:])
+            cur = parent.get(cur)
+    users = sorted(set(nd.split("<")[0].split("(")[0] for nd in seen if "Executor::operator()" in nd))
+    cx.floor("executors that draw track ids", len(users), 2)
+    cx.ob("C06.6-id-order", "executors that draw track ids are launched in slot order, not through the "
+          "slot-remapping TrackExecutor", not remap,
+          ("call chain: " + " -> ".join(chain)) if remap else "drawn by %s" % ", ".join(users),
+          short(db.get(mk)[0].loc),
+          why="make_track_id is an atomic counter: if the visit order follows the track_slots "
+              "permutation, the ids (and every tally keyed by them) depend on the track-order "
+              "policy and on what ran on the state before")
+
     # ------------------------------------------------- 7. timed / untimed arms agree
     for f in db.get(C + "ActionSequence::step"):
         if "MemSpace::device" in f.inst:
